@@ -22,6 +22,11 @@ common = [
  "break instead of continue in the loop identifying incoming uni streams",
  "BufList::push_bytes keeping only the first segment of a received buffer",
  "HeaderMap::with_capacity / append panics for huge field counts (already repaired)",
+ "the list / range of HTTP/2-reserved frame types in Frame::decode losing one member",
+ "process_goaway / ConnectionInner::shutdown comparison operators (<, <=, ==)",
+ "a busy loop inside one poll after a stream ended (AcceptRecvStream::poll_next_varint)",
+ "several poll_open_send calls merged into one poll_fn with ready!",
+ "poll_connection_error registering the driver's waker only once",
 ]
 print("Changes of the following kinds have ALREADY been studied; do not hand in any of them again, find a DIFFERENT mechanism (another code site, another kind of trigger):")
 print('\n'.join(lines))
